@@ -102,7 +102,9 @@ def direct_encode(msg):
 def filler_entry(i):
     """concrete table entry i (all different): six octets, mask, ttl, remaining"""
     six = bytes([10, i % 256, 255 - i % 256, (37 * i) % 256] + R.u16(47808 + i))
-    return six, (0xFFFFFFFF << (i % 33)) % 4294967296, 30 + 1000 * i, 65535 - 999 * i
+    # masks: prefix masks of every length for even i, arbitrary bit patterns (not a run of leading ones) for odd i
+    mask = (0xFFFFFFFF << ((i // 2) % 33)) % 4294967296 if i % 2 == 0 else (0x9E3779B1 * (i + 1)) % 4294967296
+    return six, mask, 30 + 1000 * i, 65535 - 999 * i
 
 
 def draw_params(d, fn, n, paylo, payhi, fill=0, sym=None, forms=False, lens=None):
@@ -594,6 +596,9 @@ def instances(tier):
     for fn in TABLE_FNS:
         for n in ([0, 1, 2] if q else [0, 1, 2, 3, 4, 8]):
             rt(fn, "n=%d" % n, n=n)
+        # every entry concrete (prefix masks and arbitrary bit patterns, see filler_entry): one plain run, for code the
+        # engine cannot follow symbolically
+        rt(fn, "n=12 (concrete)", n=12, sym=[])
         if q:
             rt(fn, "n=40 (4 symbolic)", n=40, sym=[0, 1, 20, 39])
         else:
